@@ -27,10 +27,15 @@
 (*   Fail(m,pt)     an error inside the group (nothing of the group is durable unless the      *)
 (*                  transaction was already committed: pt = "after_commit")                   *)
 (*   Cancel         the StateWatcher turns to Stopping                                        *)
-(*   End(res)       execute_genesis_block returns; on Ok the off-chain progress keys have      *)
-(*                  been removed (committed), the on-chain ones travel with the genesis block  *)
+(*   End(res)       execute_genesis_block returns; on Ok the removal of the on-chain progress  *)
+(*                  keys travels with the (uncommitted) genesis block                          *)
 (*   CommitBlock    the importer commits the genesis block and the on-chain changes            *)
+(*   ClearOffChain  clear_off_chain_genesis_progress: the off-chain progress keys are removed   *)
 (*   DropResult     the process dies after End(Ok) and before CommitBlock                      *)
+(* Defect found with this spec and repaired in /repo (`fix:` commit): execute_genesis_block      *)
+(* used to remove the off-chain progress keys in a committed off-chain transaction BEFORE its   *)
+(* result was committed; a node that stopped in between re-imported every off-chain group       *)
+(* (coin and message balances were added twice).  ClearOffEarly = TRUE models the old code.     *)
 (* Workers run in parallel (tables with >= 10 groups) or one after the other; the spec allows  *)
 (* every interleaving, so at a crash every other table's progress is any reachable value.     *)
 EXTENDS Integers, Sequences, FiniteSets, TLC
@@ -40,7 +45,9 @@ CONSTANTS Migs,         \* names of the migrations in the model (subset of DOMAI
           GroupSizes,   \* group sizes offered to Export; 0 = default (usize::MAX: one group)
           Encodings,    \* subset of {"json", "parquet"}
           MaxCrashes,   \* bound on End(Err)/DropResult per behaviour (model checking only)
-          WithDrop      \* BOOLEAN: explore DropResult (death between End(Ok) and CommitBlock)
+          WithDrop,     \* BOOLEAN: explore DropResult (death between End(Ok) and CommitBlock)
+          ClearOffEarly \* BOOLEAN: TRUE = behaviour before fix (see below): execute_genesis_block itself removed
+                        \* the off-chain progress keys, before its result was committed
 
 (* ---- the real tables ------------------------------------------------------------------- *)
 Mig(f, t, off) == [from |-> f, to |-> t, off |-> off]
@@ -90,7 +97,7 @@ Points == {"task_start", "group_start", "after_process", "before_commit", "after
 
 (* ---- state ------------------------------------------------------------------------------ *)
 VARIABLES
-  phase,      \* "unborn" | "exported" | "running" | "ended" | "imported" | "done"
+  phase,      \* "unborn" | "exported" | "running" | "ended" | "imported" | "committed" | "done"
   src,        \* [Tables -> Nat] entries per table in the source node
   srcH,       \* height of the source chain (-1 before Export)
   enc, gs,    \* encoding and group size of the snapshot
@@ -121,8 +128,13 @@ Chunks(n, g) ==
   ELSE IF g = 0 THEN <<1..n>>
   ELSE [k \in 1..((n + g - 1) \div g) |-> {e \in 1..n : (e - 1) \div g = k - 1}]
 
-\* what the snapshot holds for table T
-SnapOf(n, e, g, T) == IF e = "json" /\ T \notin JsonTables THEN <<>> ELSE Chunks(n, g)
+\* what the snapshot holds for table T, given the sizes n of the source tables.  The JSON encoding has no
+\* ContractsInfo field either, but its reader derives one entry per contract (zero salt) from the contracts;
+\* the exporter does not write that table at all.
+SnapOf(n, e, g, T) ==
+  IF T = "ContractsInfo" THEN (IF e = "json" /\ "ContractsRawCode" \in DOMAIN n THEN Chunks(n["ContractsRawCode"], g) ELSE <<>>)
+  ELSE IF e = "json" /\ T \notin JsonTables THEN <<>>
+  ELSE Chunks(n[T], g)
 
 \* what an uninterrupted import writes for worker m
 RefDst(m) == UnionAll(snap[From(m)])
@@ -149,16 +161,19 @@ GhostExport == cnt' = [m \in Migs |-> [k \in 1..Len(snap'[From(m)]) |-> 0]] /\ r
 GhostReference == ref' = [m \in Migs |-> UnionAll(snap[From(m)])]
 
 (* ---- export ------------------------------------------------------------------------------ *)
-Export(w, e, g) ==
+\* n: sizes of the source tables, h: source height
+ExportW(n, h, e, g) ==
   /\ phase = "unborn"
-  /\ src' = [T \in Tables |-> Worlds[w].n[T]]
-  /\ srcH' = Worlds[w].h
+  /\ src' = [T \in Tables |-> n[T]]
+  /\ srcH' = h
   /\ enc' = e /\ gs' = g
-  /\ snap' = [T \in Tables |-> SnapOf(Worlds[w].n[T], e, g, T)]
-  /\ snapH' = Worlds[w].h              \* LastBlockConfig::from_header(latest block)
+  /\ snap' = [T \in Tables |-> SnapOf(n, e, g, T)]
+  /\ snapH' = h                        \* LastBlockConfig::from_header(latest block)
   /\ GhostExport
   /\ phase' = "exported"
   /\ UNCHANGED <<dst, dstH, prog, pos, ws, cancelled, ref, crashes>>
+Export(w, e, g) ==
+  /\ ExportW(Worlds[w].n, Worlds[w].h, e, g)
   /\ act' = [name |-> "Export", w |-> w, enc |-> e, g |-> g]
 
 Reference ==
@@ -229,9 +244,9 @@ SomeFailed == \E m \in Migs : ws[m] = "failed"
 SomeCancelled == \E m \in Migs : ws[m] = "stopped"
                                  \/ (cancelled /\ (ws[m] = "new" \/ (Idle(m) /\ pos[m] < NG(m))))
 
-\* execute_genesis_block returns. Ok: all workers returned Ok, then the off-chain GenesisMetadata keys are
-\* removed in a committed off-chain transaction while the removal of the on-chain keys is part of the
-\* returned, not yet committed, changes.
+\* execute_genesis_block returns. Ok: all workers returned Ok; the removal of the on-chain GenesisMetadata
+\* keys is part of the returned, not yet committed, changes; the off-chain keys stay until the genesis
+\* block is committed.
 End(res) ==
   /\ phase = "running"
   /\ CASE res = "Ok" -> AllFinished /\ ~SomeFailed
@@ -239,7 +254,7 @@ End(res) ==
        [] res = "Err:cancelled" -> SomeCancelled
   /\ IF res = "Ok"
      THEN /\ phase' = "imported"
-          /\ prog' = [m \in Migs |-> IF IsOff(m) THEN -1 ELSE prog[m]]
+          /\ prog' = [m \in Migs |-> IF ClearOffEarly /\ IsOff(m) THEN -1 ELSE prog[m]]
           /\ crashes' = crashes
      ELSE /\ phase' = "ended" /\ prog' = prog /\ crashes' = crashes + 1
   /\ ws' = [m \in Migs |-> "none"]
@@ -249,11 +264,20 @@ End(res) ==
 \* Importer::commit_result: genesis block (height = last block + 1) and the on-chain changes
 CommitBlock ==
   /\ phase = "imported"
-  /\ phase' = "done"
-  /\ prog' = [m \in Migs |-> -1]
+  /\ phase' = "committed"
+  /\ prog' = [m \in Migs |-> IF IsOff(m) THEN prog[m] ELSE -1]
   /\ dstH' = snapH + 1
   /\ UNCHANGED <<src, srcH, enc, gs, snap, snapH, dst, pos, ws, cancelled, cnt, redo, ref, crashes>>
   /\ act' = [name |-> "CommitBlock"]
+
+\* clear_off_chain_genesis_progress, called once the genesis block is committed (also after a restart:
+\* a node that stopped between CommitBlock and this step performs it when it starts again)
+ClearOffChain ==
+  /\ phase = "committed"
+  /\ phase' = "done"
+  /\ prog' = [m \in Migs |-> -1]
+  /\ UNCHANGED <<src, srcH, enc, gs, snap, snapH, dst, dstH, pos, ws, cancelled, cnt, redo, ref, crashes>>
+  /\ act' = [name |-> "ClearOffChain"]
 
 \* the node dies between the return of execute_genesis_block and the commit of its result
 DropResult ==
@@ -272,40 +296,42 @@ Next ==
   \/ (crashes < MaxCrashes /\ Cancel)
   \/ \E res \in {"Ok", "Err:failed", "Err:cancelled"} : End(res)
   \/ CommitBlock
+  \/ ClearOffChain
   \/ (WithDrop /\ crashes < MaxCrashes /\ DropResult)
 
 Spec == Init /\ [][Next]_<<vars, act>>
 
 (* ---- properties ---------------------------------------------------------------------------- *)
 TypeOK ==
-  /\ phase \in {"unborn", "exported", "running", "ended", "imported", "done"}
+  /\ phase \in {"unborn", "exported", "running", "ended", "imported", "committed", "done"}
   /\ \A m \in Migs : prog[m] \in -1..(NG(m) - 1) /\ pos[m] \in 0..NG(m)
 
+Imported == phase \in {"imported", "committed", "done"}
 \* C39: the tables of the regenesis node equal the tables of the source node, table by table, and the
 \* chain continues at the source height
 ImportedEqualsExported ==
-  /\ phase \in {"imported", "done"} => \A T \in PTables : dst[Ident(T)] = 1..src[T]
-  /\ phase = "done" => dstH = srcH + 1
+  /\ Imported => \A T \in PTables : dst[Ident(T)] = 1..src[T]
+  /\ phase \in {"committed", "done"} => dstH = srcH + 1
 
 \* the same, for the tables the snapshot's encoding carries (the JSON StateConfig has no field for
 \* processed transactions and block Merkle data)
 Carried(T) == enc # "json" \/ T \in JsonTables
 ImportedEqualsExportedCarried ==
-  /\ phase \in {"imported", "done"} => \A T \in PTables : Carried(T) => dst[Ident(T)] = 1..src[T]
-  /\ phase = "done" => dstH = srcH + 1
+  /\ Imported => \A T \in PTables : Carried(T) => dst[Ident(T)] = 1..src[T]
+  /\ phase \in {"committed", "done"} => dstH = srcH + 1
 
 \* C40: whatever interruptions happened, the final state is the one of an uninterrupted import and no
 \* progress key is left
 FinalEqualsUninterrupted ==
-  /\ phase \in {"imported", "done"} /\ HasRef => \A m \in Migs : dst[m] = ref[m]
-  /\ phase \in {"imported", "done"} => \A m \in Migs : dst[m] = RefDst(m)
+  /\ Imported /\ HasRef => \A m \in Migs : dst[m] = ref[m]
+  /\ Imported => \A m \in Migs : dst[m] = RefDst(m)
   /\ phase = "done" => \A m \in Migs : prog[m] = -1
 
 \* C40: no group is applied twice, none is skipped
 EachGroupOnce ==
   /\ ~redo
   /\ \A m \in Migs : \A k \in DOMAIN cnt[m] : cnt[m][k] <= 1
-  /\ phase \in {"imported", "done"} => \A m \in Migs : \A k \in DOMAIN cnt[m] : cnt[m][k] = 1
+  /\ Imported => \A m \in Migs : \A k \in DOMAIN cnt[m] : cnt[m][k] = 1
 
 \* the progress index never runs ahead of or behind what is durable (mechanism of C40)
 ProgressMatchesData ==
